@@ -58,7 +58,7 @@ package mathext
 //@   trusted dispatch through a function variable; generic arm proved, BMI2 arm is a stated axiom
 //@   ensures r == pextS(x, mask, 1)
 //@
-//@ struct writers_global pdepImpl = {init}
+//@ struct writers_global pdepImpl = {init, init#1}
 //@   property C17
-//@ struct writers_global pextImpl = {init}
+//@ struct writers_global pextImpl = {init, init#1}
 //@   property C17
